@@ -54,6 +54,10 @@ type Violation struct {
 	Desc   string          `json:"desc"`
 	Replay json.RawMessage `json:"replay"`
 	Size   int             `json:"size"` // smaller = simpler counterexample
+	// Precise marks a report that comes from a precise external detector (the
+	// Go race detector in the free-running pass) and cannot be replayed
+	// deterministically; it is believed without the 5x replay.
+	Precise bool `json:"precise,omitempty"`
 }
 
 // TaskResult is what a worker sends back for one task.
